@@ -226,6 +226,22 @@ def chunk_count_selection(ctx, rule, bindings=None):
             # follow copies to the user local
             l = _c11.root_local(pf, op) if l is not None else None
             defs = _c11.local_defs(pf, l) if l is not None else []
+
+            def names_of(ds):
+                out = set()
+                for t_, _bb in ds:
+                    inner_, _ = layout.unwrap_value(expand(t_, fx, 3, layout.noinl(fx)))
+                    out.add(bindings.get(inner_[3], ('', ''))[1] if layout.is_read_term(inner_) else None)
+                return out
+            if names_of(defs) != {'old_chunks', 'new_chunks'}:
+                # the selected value may reach the call through a struct field or a helper's return slot: look for the local that
+                # is assigned exactly the two candidate reads and whose value is what the call receives
+                want = set(alts(q.arg_terms(c)[0]))
+                for l2 in range(len(pf.locals)):
+                    ds2 = _c11.local_defs(pf, l2)
+                    if len(ds2) == 2 and names_of(ds2) == {'old_chunks', 'new_chunks'} and {t_ for t_, _ in ds2} == want:
+                        defs = ds2
+                        break
             got = {}
             for t, bb in defs:
                 t = expand(t, fx, 3, layout.noinl(fx))
@@ -234,6 +250,15 @@ def chunk_count_selection(ctx, rule, bindings=None):
                 zero_test = None
                 for cond, vals, a in q.guards(pf, bb):
                     cond = expand(cond, fx, 3, layout.noinl(fx))
+                    # `match new { 0 => old, n => n }`: a switch directly on the read value
+                    sub0, _ = layout.unwrap_value(cond)
+                    if layout.is_read_term(sub0) and bindings.get(sub0[3], ('', ''))[1] == 'new_chunks':
+                        explicit = [vv for vv, _ in pf.blocks[a]['term']['targets']]
+                        if vals == [0]:
+                            zero_test = True
+                        elif vals == ['otherwise'] and 0 in explicit:
+                            zero_test = False
+                        continue
                     if cond[0] == 'bin' and cond[1] in ('Eq', 'Ne') and q.const_val(cond[3]) in (0, 0xFFFF):
                         sub, _ = layout.unwrap_value(cond[2])
                         which = bindings.get(sub[3], ('', ''))[1] if layout.is_read_term(sub) else None
